@@ -18,12 +18,14 @@ def service_for(classes):
     return svc
 
 
-def build_ae(calls, max_pdu=16384):
-    """a real ClientAE/AE-like entity configured by a sequence of add_scu / add_scp calls"""
+def build_ae(calls, max_pdu=16384, ae=None, offset=0):
+    """a real ClientAE/AE-like entity configured by a sequence of add_scu / add_scp calls (`ae` given: the calls are
+    applied to an entity that is already in use)"""
     from pynetdicom2 import applicationentity as aem
-    ae = aem.ClientAE('LOCALAET', supported_ts=TS[:2], max_pdu_length=max_pdu)
+    if ae is None:
+        ae = aem.ClientAE('LOCALAET', supported_ts=TS[:2], max_pdu_length=max_pdu)
     scu = []
-    for n, (kind, classes) in enumerate(calls):
+    for n, (kind, classes) in enumerate(calls, offset):
         if kind == 'scu':
             if n % 2 and classes:
                 # the documented override: the service's own list is NOT what gets configured
@@ -83,8 +85,19 @@ CANON = {}
 def check_case(calls, reply_pattern, rnd):
     """returns (violation or None, known-finding key or None, model lines)"""
     from pynetdicom2 import exceptions
-    ae, scu = build_ae(calls, max_pdu=12345)
     entries = [c for _, cl in calls for c in cl]
+    max_pdu = [12345, 0, 16384, 4294967295][(len(entries) + len(calls)) % 4]
+    if len(calls) >= 2 and len(entries) <= 128:
+        # the entity is already in use - an association has been requested - when the rest of the configuration is added
+        ae, scu = build_ae(calls[:1], max_pdu=max_pdu)
+        if calls[0][1]:
+            try:
+                run_request(ae, [])
+            except Exception:  # pylint: disable=broad-except
+                pass
+        scu += build_ae(calls[1:], ae=ae, offset=1)[1]
+    else:
+        ae, scu = build_ae(calls, max_pdu=max_pdu)
     proposed = list(ae.context_def_list.items())
     ids = [i for i, _ in proposed]
     model_ids = 'add-calls ' + ' '.join('+'.join(h(c) for c in cl) or '-' for _, cl in calls)
@@ -121,8 +134,8 @@ def check_case(calls, reply_pattern, rnd):
         return 'called/calling AE titles %r/%r, expected REMOTEAET/LOCALAET' % (v['called'], v['calling']), None, []
     if v['appctx'] != '1.2.840.10008.3.1.1.1':
         return 'application context %r' % (v['appctx'],), None, []
-    if v['maxlen'] != 12345:
-        return 'maximum length announced %r, entity configured with 12345' % (v['maxlen'],), None, []
+    if v['maxlen'] != max_pdu:
+        return 'maximum length announced %r, entity configured with %d' % (v['maxlen'], max_pdu), None, []
     want_pcs = [(2 * k + 1, c, list(TS[:2])) for k, c in enumerate(entries)]
     got_pcs = [(i, a, sorted(t)) for i, a, t in v['pcs']]
     if got_pcs != [(i, a, sorted(t)) for i, a, t in want_pcs]:
@@ -133,13 +146,17 @@ def check_case(calls, reply_pattern, rnd):
     got_usable = sorted((k, str(d.sop_class), str(d.supported_ts)) for k, d in req.accepted_contexts.items())
     if got_usable != want_usable:
         return 'usable contexts %r, the peer accepted %r' % (got_usable[:4], want_usable[:4]), None, []
-    for cls in sorted(set(scu)):
-        acc = [(i, t) for i, r, t in reply if r == 0 and str(ae.context_def_list[i].sop_class) == cls]
+    scp_only = [c for k, cl in calls if k != 'scu' for c in cl if c not in scu]
+    for cls in sorted(set(scu)) + ['1.2.826.0.1.3680043.9.7.1'] + scp_only[:2]:
+        acc = [(i, t) for i, r, t in reply if r == 0 and str(ae.context_def_list[i].sop_class) == cls and cls in scu]
         try:
             f = req.get_scu(cls)
             res = f()
         except exceptions.ClassNotSupportedError:
             res = None
+        except Exception as e:  # pylint: disable=broad-except
+            return ('get_scu(%s) raised %r (a class that cannot be used%s must be refused with ClassNotSupportedError)'
+                    % (cls, e, '' if cls in scu else ', here one never configured as SCU')), None, []
         if acc and (res is None or (res[0], res[2]) not in acc or res[1] != cls):
             return 'get_scu(%s) gives %r although the peer accepted contexts %r for it' % (cls, res, acc), None, []
         if not acc and res is not None:
